@@ -4,4 +4,6 @@ cd "$(dirname "$0")/.."
 TIER=${1:-quick}; shift 2>/dev/null
 IDS=${*:-$(python3 -c "import json;print(' '.join(c['property_id'] for c in json.load(open('MANIFEST.json'))['checks']))")}
 mkdir -p .cache/runall
+# the whole library must build as one (setup.sh does `lake build`): catches name clashes between generated/per-property modules
+python3 translator/extract.py >/dev/null && (cd lean && ../tools/lake-locked build 2>&1 | grep -E "^error|error:" | head -5)
 echo $IDS | tr ' ' '\n' | xargs -P 4 -I{} sh -c "timeout 7200 ./check {} --tier $TIER > .cache/runall/{}.log 2>&1; echo \"{} rc=\$? \$(grep -E '^(OK|VIOLATION|INTERNAL)' .cache/runall/{}.log | tail -1 | cut -c1-150)\""
